@@ -25,14 +25,14 @@ RULE = ("call list: 10 families in turn - (1) the 34 primitive distance function
         "gjk_distance_original, Nesterov primitives distance, (4) mpr_intersection / mpr_penetration, (5) epa, (6) AABB tree "
         "histories incl. empty trees (index sets), (7) intersect_tetrahedron_pair and half-plane intersection on single pairs, "
         "(8) contact_forces on coarse body pairs, (9) utils (transforms, norm_vector incl. zero vector, plane basis, adjoint), "
-        "(10) simplex solvers on lattice configurations. Each call is executed under JIT, NUMBA_DISABLE_JIT=1 and "
+        "(10) simplex solvers on lattice configurations, (11) solvers with tiny public iteration caps (budget-exhausted exits).  Each call is executed under JIT, NUMBA_DISABLE_JIT=1 and "
         "JIT+NUMBA_BOUNDSCHECK=1; compared: exception types, discrete results (booleans, index sets) when the scene is away "
         "from decision boundaries, floats to 1e-9 relative (closed forms) or the accuracy of C01/C07-C09 (iterative solvers). "
         "non-trivial = call outside the 'free random' class; distinct = distinct call hashes")
 ASSUMPTIONS = ["'away from decision boundaries' for booleans: scenes with a constructed gap or depth >= 1e-3 L",
                "results of meshes are compared after a fresh construction in every process (cached start vertex)"]
 FAMILIES = ["distance", "support", "distance", "gjk", "distance", "mpr", "distance", "epa", "distance", "aabbtree", "distance", "tetra",
-            "distance", "forces", "distance", "utils", "distance", "simplex"]
+            "distance", "forces", "distance", "utils", "caps", "simplex"]
 SHARDS = {"jit": 4, "bounds": 4, "nojit": 8}
 
 
@@ -69,6 +69,30 @@ def _flat(x, nums, disc):
     disc.append(repr(type(x).__name__))
 
 
+def _tied_minima_outside(p1, p2, L):
+    """own model of the situation in which line_segment_to_circle's end-point clamp (C11 finding K3) turns a tie into
+    different results: the distance from the infinite line to the circle has two local minima of (nearly) the same
+    value and only one of them belongs to the segment"""
+    a = np.asarray(p1.args[0], float); b = np.asarray(p1.args[1], float)
+    c = np.asarray(p2.args[0], float); r = float(p2.args[1]); n = np.asarray(p2.args[2], float)
+    ln = float(np.linalg.norm(b - a))
+    if ln == 0.0:
+        return False
+    d = (b - a) / ln
+    t = np.linspace(-4 * r - ln, 2 * ln + 4 * r, 20001)
+    P = a + t[:, None] * d - c
+    z = P @ n
+    rho = np.linalg.norm(P - z[:, None] * n, axis=1)
+    f = np.hypot(rho - r, z)
+    loc = np.where((f[1:-1] <= f[:-2]) & (f[1:-1] <= f[2:]))[0] + 1
+    if len(loc) < 2:
+        return False
+    best = f[loc].min()
+    tied = [i for i in loc if f[i] <= best + 5e-3 * L]
+    inside = [0.0 <= t[i] <= ln for i in tied]
+    return bool(len(tied) >= 2 and any(inside) and not all(inside))
+
+
 def make_call(rng, idx, tier):
     """returns dict(fn, thunk, L, tol ('rel' 1e-9 closed form | absolute multiple of L), discrete ('always'|'never'), cls)"""
     from .. import gen, oracles as O, pairs, prims, hydro
@@ -91,8 +115,16 @@ def make_call(rng, idx, tier):
             if unique:
                 out["points"] = pts
             return out
-        return {"fn": "distance." + name, "thunk": th, "L": L,
-                "tol": 1e-7 if iterative else 1e-9, "discrete": "always", "cls": "structured" if sc.structured else ("contact" if sc.contact else "generic"),
+        tol = 1e-7 if iterative else 1e-9
+        tags = None
+        if name in ("line_to_circle", "line_segment_to_circle") and not unique:
+            # 8-step bisection: in structured / touching scenes a sign test can sit exactly on a root or two candidate
+            # roots tie, so the modes may settle on different iterates; the accuracy stated for this solver (C11) applies
+            tol = 5e-3
+            if name == "line_segment_to_circle":
+                tags = {"tied_line_minima_one_outside_segment": _tied_minima_outside(p1, p2, L)}
+        return {"fn": "distance." + name, "thunk": th, "L": L, "tags": tags,
+                "tol": tol, "discrete": "always", "cls": "structured" if sc.structured else ("contact" if sc.contact else "generic"),
                 "desc": {"p1": p1.describe(), "p2": p2.describe()}, "tolmap": {"points": 1e-7}}
     if fam == "support":
         spec = gen.rand_spec(rng, margin_p=0.1)
@@ -159,6 +191,61 @@ def make_call(rng, idx, tier):
             return {"overlap": True, "tetra": True, "ok": bool(ok), "len": float(np.linalg.norm(mtv)) if ok else -1.0}
         return {"fn": "epa[%s,%s]" % (O.name(sA), O.name(sB)), "thunk": th, "L": L, "tol": 2e-5, "discrete": "always" if clear else "never",
                 "cls": cls, "desc": desc}
+    if fam == "caps":
+        # the documented iteration caps are public arguments: every solver is run with a tiny budget so that its
+        # "budget used up" exit is taken; compared across modes: exception types and the structure (types, shapes)
+        # of the result -- truncated iterates themselves are not compared, they sit on branch decisions
+        PR = ("sphere", "capsule", "box", "ellipsoid", "cylinder")
+        kA = PR[(idx // 18) % 5]; kB = PR[(idx // 90) % 5]
+        cp = {"gap": .35, "deep": .25, "overlap": .2, "touch": .1, "nested": .1}
+        sA, sB, cls, truth = pairs.make_pair(rng, kA, kB, margin_p=0.0, class_p=cp)
+        oA, oB, L = pairs.scene(sA, sB)
+        M = int(rng.choice([0, 1, 2, 3, 5]))
+        which = int(rng.integers(6))
+
+        def shape_of(x):
+            if isinstance(x, (tuple, list)):
+                return [shape_of(y) for y in x]
+            if isinstance(x, np.ndarray):
+                return ["array", list(x.shape), "f" if x.dtype.kind == "f" else x.dtype.kind]
+            if isinstance(x, (bool, np.bool_)):
+                return "bool"
+            if isinstance(x, (int, np.integer)):
+                return "int"
+            if isinstance(x, (float, np.floating)):
+                return "float"
+            return type(x).__name__
+
+        def th():
+            from distance3d import gjk, mpr, epa
+            A, B = pairs.build_pair(sA, sB)
+            if which == 0:
+                r = gjk.gjk_nesterov_accelerated_primitives(A, B, max_interations=M)
+                return repr(("nesterov_primitives", shape_of(r[:2]), int(r[3]) <= M))
+            if which == 1:
+                r = gjk.gjk_nesterov_accelerated(A, B, max_interations=M)
+                return repr(("nesterov", shape_of(r[:2]), int(r[3]) <= M))
+            if which == 2:
+                return repr(("libccd", shape_of(gjk.gjk_intersection_libccd(A, B, max_iterations=M))))
+            if which == 3:
+                return repr(("mpr_intersection", shape_of(mpr.mpr_intersection(A, B, max_iterations=M))))
+            if which == 4:
+                r = mpr.mpr_penetration(A, B, max_iterations=M)
+                return repr(("mpr_penetration", shape_of(r[0])))
+            from .. import monitors
+            pa = monitors.Counted(A, record=True); pb = pa if B is A else monitors.Counted(B, record=True)
+            r = gjk.gjk_distance_jolt(pa, pb)
+            if r[0] != 0.0 or r[3] is None:
+                return repr(("epa", "disjoint"))
+            S = np.array(r[3], dtype=float)
+            if not monitors.simplex_is_tetrahedron(S, pa, pb):
+                return repr(("epa", "no-tetrahedron"))
+            r = epa.epa(S, A, B, max_iter=max(M, 1))
+            return repr(("epa", shape_of(r[0]), shape_of(r[2])))
+        clear = (truth["dist"] is not None and truth["dist"] >= 1e-3 * L) or \
+                (truth.get("common") is not None and truth.get("depth") is not None and truth["depth"] >= 1e-3 * L)
+        return {"fn": "caps[%d,M=%d,%s,%s]" % (which, M, O.name(sA), O.name(sB)), "thunk": th, "L": L, "tol": 1e-9,
+                "discrete": "always" if clear else "never", "cls": "caps|" + cls, "desc": pairs.describe(sA, sB, cls, truth)}
     if fam == "aabbtree":
         from . import c05
         famb = str(rng.choice(c05.FAMILIES))
@@ -286,7 +373,7 @@ def worker(argv):
             recs[idx] = {"fn": "generator", "kind": "gen-exc", "exc": type(e).__name__, "msg": str(e)[:200]}
             continue
         r = {"fn": call["fn"], "cls": call["cls"], "L": call["L"], "tol": call["tol"], "discrete": call["discrete"],
-             "tolmap": call.get("tolmap"), "scale_by_value": call.get("scale_by_value", False)}
+             "tolmap": call.get("tolmap"), "scale_by_value": call.get("scale_by_value", False), "tags": call.get("tags")}
         try:
             val = call["thunk"]()
             nums = []; disc = []
@@ -486,7 +573,7 @@ def _compare(a, b, label, stats, worst):
             wk = "%s %s" % (fn.split("[")[0], label)
             worst[wk] = max(worst.get(wk, 0.0), e / tol)
             if e > tol:
-                return {"key": dict(key, kind="value-differs", field=nm), "err": float(e),
+                return {"key": dict(key, kind="value-differs", field=nm, **(a.get("tags") or {})), "err": float(e),
                         "msg": "%s: field %r: %.17g (JIT) vs %.17g (%s): relative difference %.3g > %.1g" % (fn, nm, u, v, label, e, tol)}
     return None
 
